@@ -96,6 +96,11 @@ type Scenario struct {
 	Kind   string      `json:"kind"` // proc | worker | pool
 	Name   string      `json:"name"`
 	Tracks bool        `json:"tracks"`
+	// Loc is the node location [region, zone] the scenario runs at (absent: [0,0]); Restart closes and reopens
+	// the disk-backed databases between the blocks of a processing scenario (what a node restart does to the
+	// store: only what batch.Write() made durable survives)
+	Loc     []byte `json:"loc,omitempty"`
+	Restart bool   `json:"restart,omitempty"`
 	Keys   [][]byte    `json:"keys"` // private keys
 	Base   []UtxoSpec  `json:"base"`
 	Blocks []BlockSpec `json:"blocks"`
@@ -115,15 +120,24 @@ func mkKey(priv []byte) keyInfo {
 	return keyInfo{k, pub, crypto.PubkeyBytesToAddress(pub, nodeLoc).Bytes()}
 }
 
-// grindKey returns a private key whose address lies in the node's zone and the wanted ledger.
-func grindKey(r *hlib.Rng, qi bool) []byte {
+// grindKey returns a private key whose address lies in the zone with the given prefix and the wanted ledger.
+func grindKey(r *hlib.Rng, prefix byte, qi bool) []byte {
 	for {
 		b := r.Bytes(32)
 		b[0] &= 0x7f
 		k := mkKey(b)
-		if k.addr[0] == nodeLoc.BytePrefix() && (k.addr[1] > 127) == qi {
+		if k.addr[0] == prefix && (k.addr[1] > 127) == qi {
 			return b
 		}
+	}
+}
+
+// setLoc makes the scenario's node location the location every real object of the run is built with.
+func setLoc(s *Scenario) {
+	if len(s.Loc) == 2 {
+		nodeLoc = common.Location{s.Loc[0], s.Loc[1]}
+	} else {
+		nodeLoc = common.Location{0, 0}
 	}
 }
 
@@ -329,26 +343,46 @@ func buildTxs(s *Scenario, keys []keyInfo, r *hlib.Rng) [][]*builtTx {
 type backend struct {
 	name string
 	open func(dir string) (ethdb.Database, func())
+	// restart closes db and opens the store again from what is on disk (nil: memory only, nothing to reopen)
+	restart func(dir string, db ethdb.Database) ethdb.Database
 }
 
 func backends() []backend {
-	lv := func(dir string) (ethdb.Database, func()) {
-		p := filepath.Join(dir, "lv")
+	// cur remembers the handle that is open on a path now, so that the close function works after a restart
+	cur := map[string]ethdb.Database{}
+	lvOpen := func(p string) ethdb.Database {
 		d, err := leveldb.New(p, 16, 16, "", false, logger, nodeLoc)
 		if err != nil {
 			panic(err)
 		}
-		db := rawdb.NewDatabase(d)
-		return db, func() { db.Close(); os.RemoveAll(p) }
+		cur[p] = rawdb.NewDatabase(d)
+		return cur[p]
 	}
-	pb := func(dir string) (ethdb.Database, func()) {
-		p := filepath.Join(dir, "pb")
+	pbOpen := func(p string) ethdb.Database {
 		d, err := pebble.New(p, 16, 16, "", false, logger, nodeLoc)
 		if err != nil {
 			panic(err)
 		}
-		db := rawdb.NewDatabase(d)
-		return db, func() { db.Close(); os.RemoveAll(p) }
+		cur[p] = rawdb.NewDatabase(d)
+		return cur[p]
+	}
+	lv := func(dir string) (ethdb.Database, func()) {
+		p := filepath.Join(dir, "lv")
+		return lvOpen(p), func() { cur[p].Close(); os.RemoveAll(p) }
+	}
+	pb := func(dir string) (ethdb.Database, func()) {
+		p := filepath.Join(dir, "pb")
+		return pbOpen(p), func() { cur[p].Close(); os.RemoveAll(p) }
+	}
+	lvRestart := func(dir string, _ ethdb.Database) ethdb.Database {
+		p := filepath.Join(dir, "lv")
+		cur[p].Close()
+		return lvOpen(p)
+	}
+	pbRestart := func(dir string, _ ethdb.Database) ethdb.Database {
+		p := filepath.Join(dir, "pb")
+		cur[p].Close()
+		return pbOpen(p)
 	}
 	mem := func(dir string) (ethdb.Database, func()) {
 		db := rawdb.NewMemoryDatabase(logger)
@@ -360,9 +394,14 @@ func backends() []backend {
 			return rawdb.NewTable(db, "c01-", nodeLoc, logger), cl
 		}
 	}
+	tableRestart := func(inner func(string, ethdb.Database) ethdb.Database) func(string, ethdb.Database) ethdb.Database {
+		return func(dir string, db ethdb.Database) ethdb.Database {
+			return rawdb.NewTable(inner(dir, db), "c01-", nodeLoc, logger)
+		}
+	}
 	return []backend{
-		{"leveldb", lv}, {"pebble", pb}, {"memorydb", mem},
-		{"table/memorydb", table(mem)}, {"table/pebble", table(pb)},
+		{"leveldb", lv, lvRestart}, {"pebble", pb, pbRestart}, {"memorydb", mem, nil},
+		{"table/memorydb", table(mem), nil}, {"table/pebble", table(pb), tableRestart(pbRestart)},
 	}
 }
 
@@ -446,7 +485,7 @@ func writeBase(db ethdb.Database, base []UtxoSpec) {
 // runProc drives core.ProcessQiTx over the blocks of s on db exactly as
 // StateProcessor.Process does for the Qi transactions of a block: one batch per block,
 // batch.SetPending(tracks), first error rejects the block (batch dropped), else batch.Write().
-func runProc(db ethdb.Database, s *Scenario, ctxs []*builtCtx, txs [][]*builtTx) (obs []BlockObs) {
+func runProc(db ethdb.Database, s *Scenario, ctxs []*builtCtx, txs [][]*builtTx, restart ...func(ethdb.Database) ethdb.Database) (obs []BlockObs) {
 	writeBase(db, s.Base)
 	signer := types.NewSigner(chainID, nodeLoc)
 	var rig *poolRig
@@ -457,6 +496,10 @@ func runProc(db ethdb.Database, s *Scenario, ctxs []*builtCtx, txs [][]*builtTx)
 	for bi := range s.Blocks {
 		c := ctxs[bi]
 		bo := BlockObs{OK: true}
+		if s.Restart && rig == nil && len(restart) == 1 && restart[0] != nil {
+			// node restart before every block (also the first: the base set must have been made durable)
+			db = restart[0](db)
+		}
 		if rig != nil && s.Blocks[bi].Gossip {
 			func() {
 				defer func() {
